@@ -591,6 +591,9 @@ class PenlogReader:
             return 0
         if not self._parsed:
             self._parse_file_structure()
+        if index == len(self._record_offsets):
+            # One past the last record: the end of the file.
+            return self.file_size
         return self._record_offsets[index]
 
     @property
